@@ -1,9 +1,118 @@
+import Mathlib.Algebra.Order.Field.Rat
+import Mathlib.Tactic.NormNum.Basic
+import Mathlib.Tactic.Positivity
 import TapkeeVerif.Model.Laplacian
 import TapkeeVerif.Model.Diffusion
-/-! C09 property theorems (skeleton; filled in as the proofs land). -/
-namespace TapkeeVerif.C09
+import TapkeeVerif.Proofs.MatBridge
+import TapkeeVerif.Proofs.Laplacian
+/-!
+# C09 — Laplacian Eigenmaps and Diffusion Map solve their stated spectral problems
 
-theorem heatArg_agree (d w : Int) : (-d) * d / w = (-(d * d)) / w := by
-  rw [Int.neg_mul]
+Subjects: the executable models `Model/Laplacian.lean` (`routines/laplacian_eigenmaps.hpp: compute_laplacian`) and
+`Model/Diffusion.lean` (`routines/diffusion_maps.hpp: compute_diffusion_matrix`, `methods/diffusion_map.hpp`
+post-processing).  All statements hold for every `N k d : Nat` and every field `K` (an order is assumed only where a
+sign is claimed); `exp` and `sqrt` are oracles `heat`, `sqrtO` constrained only by the hypotheses written out.
+
+## A. Laplacian
+`h i a` is the heat value of sample `i` and its `a`-th neighbour `nb i a`; the neighbour lists are arbitrary
+(duplicates and self-neighbours allowed).  `Laplacian.adj nb h i j = Σ_{a : nb i a = j} h i a` is the *directed* heat
+adjacency, `W = adj + adjᵀ`: a mutual neighbour pair is counted **twice** (the sum, as written; the `max` of the header
+comment is not what the code does).
+-/
+namespace TapkeeVerif.C09
+open TapkeeVerif TapkeeVerif.Laplacian Matrix
+
+section laplacian
+variable {K : Type} [Field K] {N k : Nat}
+
+/-- both routines evaluate `exp` at `−d²/width`: the width **divides** -/
+theorem heat_argument (dist w : K) :
+    Laplacian.heatArg dist w = -(dist ^ 2) / w ∧ Diffusion.heatArg dist w = -(dist ^ 2) / w := by
+  constructor
+  · simp only [Laplacian.heatArg]; ring
+  · simp only [Diffusion.heatArg]; ring
+
+/-- the heat value of sample `i` and its `a`-th neighbour -/
+theorem heats_eq (heat : K → K) (dist : Mat N N K) (w : K) (nb : Fin N → Fin k → Fin N) (i : Fin N) (a : Fin k) :
+    heats heat dist w nb i a = heat (-(dist i (nb i a)) ^ 2 / w) := by
+  simp only [heats, heatsD, DMat.get_ofFn, (heat_argument _ _).1]
+
+/-- `L = D − W` with `W = A + Aᵀ`, `A` the directed heat adjacency -/
+theorem laplacian_eq (nb : Fin N → Fin k → Fin N) (h : Mat N k K) :
+    Mat.toM (laplacianL nb h) = Matrix.diagonal (degrees nb h) - (adj nb h + (adj nb h)ᵀ) :=
+  laplacianL_eq nb h
+
+/-- `D` = the row sums of `W = A + Aᵀ` (mutual neighbours are counted twice) -/
+theorem degrees_eq (nb : Fin N → Fin k → Fin N) (h : Mat N k K) (i : Fin N) :
+    degrees nb h i = ∑ j, (adj nb h + (adj nb h)ᵀ) i j :=
+  degrees_eq_rowsum nb h i
+
+/-- the one-pass `+=` assembly the driver runs (and the C++ does) is the model matrix -/
+theorem laplacianLD_get (nb : Fin N → Fin k → Fin N) (h : Mat N k K) : (laplacianLD nb h).get = laplacianL nb h :=
+  Laplacian.laplacianLD_get nb h
+
+theorem degreesD_get (nb : Fin N → Fin k → Fin N) (h : Mat N k K) : (degreesD nb h).get = degrees nb h :=
+  Laplacian.degreesD_get nb h
+
+/-- what `compute_laplacian` returns -/
+theorem computeLaplacian_eq (heat : K → K) (dist : Mat N N K) (w : K) (nb : Fin N → Fin k → Fin N) :
+    computeLaplacian heat dist w nb
+      = (laplacianL nb (fun i a => heat (-(dist i (nb i a)) ^ 2 / w)),
+         degrees nb (fun i a => heat (-(dist i (nb i a)) ^ 2 / w))) := by
+  have : heats heat dist w nb = fun i a => heat (-(dist i (nb i a)) ^ 2 / w) := by
+    funext i a; exact heats_eq heat dist w nb i a
+  simp only [computeLaplacian, this]
+
+theorem laplacian_symm (nb : Fin N → Fin k → Fin N) (h : Mat N k K) :
+    (Mat.toM (laplacianL nb h))ᵀ = Mat.toM (laplacianL nb h) :=
+  laplacianL_symm nb h
+
+/-- the constant vector is in the kernel: `L 1 = 0` -/
+theorem laplacian_mulVec_one (nb : Fin N → Fin k → Fin N) (h : Mat N k K) :
+    (Mat.toM (laplacianL nb h)).mulVec (fun _ => 1) = 0 :=
+  laplacianL_mulVec_one nb h
+
+/-- `xᵀ L x = Σ_i Σ_a h_{i,a} (x_i − x_{nb i a})²` -/
+theorem laplacian_quadratic_form (nb : Fin N → Fin k → Fin N) (h : Mat N k K) (x : Fin N → K) :
+    x ⬝ᵥ ((Mat.toM (laplacianL nb h)).mulVec x) = ∑ i, ∑ a, h i a * (x i - x (nb i a)) ^ 2 :=
+  laplacianL_quadratic nb h x
+
+end laplacian
+
+section laplacianOrdered
+variable {K : Type} [Field K] [LinearOrder K] [IsStrictOrderedRing K] {N k : Nat}
+
+/-- non-negative heat values ⇒ `L` is positive semidefinite -/
+theorem laplacian_psd (nb : Fin N → Fin k → Fin N) (h : Mat N k K) (hh : ∀ i a, 0 ≤ h i a) (x : Fin N → K) :
+    0 ≤ x ⬝ᵥ ((Mat.toM (laplacianL nb h)).mulVec x) :=
+  laplacianL_psd nb h hh x
+
+/-- positive heat values and at least one neighbour ⇒ every degree is positive (`D` is a valid right-hand side) -/
+theorem degrees_pos (nb : Fin N → Fin k → Fin N) (h : Mat N k K) (hk : 0 < k) (hh : ∀ i a, 0 < h i a) (i : Fin N) :
+    0 < degrees nb h i :=
+  degrees_pos' nb h hk hh i
+
+end laplacianOrdered
+
+/-! Non-vacuity (A): three samples, two neighbours each; `0 ↔ 1` are mutual neighbours, sample `2` lists `0` twice. -/
+
+/-- example neighbour lists -/
+def exNb : Fin 3 → Fin 2 → Fin 3 := fun i a =>
+  if i = 0 then (if a = 0 then 1 else 2) else if i = 1 then (if a = 0 then 0 else 2) else 0
+
+/-- example heat values (all positive) -/
+def exH : Mat 3 2 ℚ := fun i a => 1 / ((i.1 : ℚ) + (a.1 : ℚ) + 1)
+
+example : ∀ i a, 0 < exH i a := fun i a => by unfold exH; positivity
+example : ∀ i a, 0 ≤ exH i a := fun i a => by unfold exH; positivity
+example : (0 : Nat) < 2 := by decide
+/-- the mutual pair `0 ↔ 1` is counted twice (sum, not max): `L 0 1 = −(h 0 0 + h 1 0)` -/
+example : laplacianL exNb exH 0 1 = -(1 + 1 / 2) := by decide +kernel
+/-- a neighbour listed twice is counted twice: `L 2 0 = −(h 2 0 + h 2 1)` -/
+example : laplacianL exNb exH 2 0 = -(1 / 3 + 1 / 4) := by decide +kernel
+example : degrees exNb exH 0 = (1 + 1 / 2) + (1 / 2 + 1 / 3 + 1 / 4) := by decide +kernel
+example : (laplacianLD exNb exH).get 0 0 = 31 / 12 := by decide +kernel
+
+-- SPECTRAL THEOREMS (appended by the spectral owner)
 
 end TapkeeVerif.C09
